@@ -337,3 +337,20 @@ Proof.
   exact (generated_code_every_execution g ptx buf penv Hg Hb Hs memo inline n r st0 rr (deep_table_all g inline Ha Hc) Hsl Hr H res Hx).
 Qed.
 Print Assumptions generated_code_all_options.
+
+(** the -noast file, same discharge of the side condition *)
+Theorem generated_code_noast_all_options g ptx buf penv :
+  good_grammar g -> good_buf buf -> good_switches g -> grammar_alt2 g -> closed_names g ->
+  forall inline n r st0 rr,
+    (forall rb, nth_error g ptx = Some rb -> rb = RNil) ->
+    o_inline (mk_opts false false inline g) r = false -> reached (count_rules g) r = true ->
+    peg_parse g ptx buf penv (S n) r = Some rr ->
+    forall res, xcall buf penv (mk_opts false false inline g) (gen_fn_noast g ptx inline) r (reset st0) res ->
+      exists st', res = Ret (match fst rr with Fail => false | Succ _ _ => true end) st' /\
+        alog st' = Runtime.execute g ptx (snd rr) (text st0) /\
+        match fst rr with Succ p _ => pos st' = p /\ p <= length buf | Fail => True end.
+Proof.
+  intros Hg Hb Hs Ha Hc inline n r st0 rr Hptx Hi Hr H res Hx.
+  exact (generated_code_noast_every g ptx buf penv Hg Hb Hs inline n r st0 rr Hptx (deep_table_all g inline Ha Hc) Hi Hr H res Hx).
+Qed.
+Print Assumptions generated_code_noast_all_options.
